@@ -686,7 +686,10 @@ type connectStreamingMarshaler struct {
 }
 
 func (m *connectStreamingMarshaler) MarshalEndStream(err error, trailer http.Header) *Error {
-	end := &connectEndStreamMessage{Trailer: trailer}
+	// The trailers belong to the handler: the error's metadata is merged into a
+	// copy, not appended to the handler's own slices.
+	end := &connectEndStreamMessage{Trailer: make(http.Header, len(trailer))}
+	mergeHeaders(end.Trailer, trailer)
 	if err != nil {
 		if connectErr, ok := asError(err); ok {
 			mergeHeaders(end.Trailer, connectErr.meta)
